@@ -1,3 +1,4 @@
+import WS.Lemmas.CutTogether
 import WS.Lemmas.CutProgramFull
 import WS.Lemmas.ProgramAnyLimit
 import WS.Lemmas.CutProgram
